@@ -66,7 +66,7 @@ class LockAcquire(Contract_):
 
     def apply(self, ex, args, kwargs, frame, node):
         l = args[0]
-        ex.check("asyncio.Lock.acquire.requires[not held by this task already]",
+        ex.check(f"{ex.target_short}.asyncio.Lock.acquire.requires[not held by this task already]",
                  mk_bool(z3.Not(lift_bool(l.fields["g_held"]))),
                  "a task must not acquire a lock it already holds (deadlock)")
         l.fields["g_held_by_other"] = False
